@@ -615,6 +615,73 @@ def topo_label(topo) -> str:
 
 
 # ---------------------------------------------------------------------------------------
+def run_l2_ring(chk: common.Check) -> None:
+    """Forwarding.tla's BoundedHops (a frame is handled at most ttl0 + 1 times: every interface that sees it lowers its ttl,
+    an exhausted frame goes nowhere) checked where the model's switches are NOT transparent: two switches joined by two
+    parallel links (a layer-2 ring; the simulator has no spanning tree), cold caches, one ping - the broadcast ARP request
+    circles the ring and only its ttl ends that.  Judged: nothing raises out of the exchange and no Frame object is taken
+    in by switches more often than the ttl it was first seen with allows."""
+    import sys
+
+    from primaite.simulator.network.container import Network
+    from primaite.simulator.network.hardware.nodes.host.computer import Computer
+    from primaite.simulator.network.hardware.nodes.network.switch import Switch
+
+    for n_links in (2, 3):
+        net = Network()
+        sws = []
+        for name in ("sw1", "sw2"):
+            sw = Switch.from_config({"type": "switch", "hostname": name, "num_ports": 5, "start_up_duration": 0})
+            sw.power_on()
+            net.add_node(sw)
+            sws.append(sw)
+        hs = []
+        for name, ip in (("host_a", "192.168.7.10"), ("host_b", "192.168.7.20")):
+            h = Computer.from_config({"type": "computer", "hostname": name, "ip_address": ip, "subnet_mask": "255.255.255.0",
+                                      "default_gateway": "192.168.7.1", "start_up_duration": 0})
+            h.power_on()
+            net.add_node(h)
+            hs.append(h)
+        net.connect(sws[0].network_interface[1], hs[0].network_interface[1])
+        net.connect(sws[1].network_interface[1], hs[1].network_interface[1])
+        for k in range(n_links):
+            net.connect(sws[0].network_interface[2 + k], sws[1].network_interface[2 + k])
+        for h in hs:
+            h.software_manager.arp.clear()
+        seen: Dict[int, List[int]] = {}
+        keep: List[Any] = []
+        original = Switch.receive_frame
+
+        def counting(self, frame, from_network_interface, _seen=seen, _keep=keep, _orig=original):
+            _keep.append(frame)
+            ent = _seen.setdefault(id(frame), [int(frame.ip.ttl) if frame.ip else 0, 0])
+            ent[1] += 1
+            return _orig(self, frame, from_network_interface)
+
+        limit = sys.getrecursionlimit()
+        sys.setrecursionlimit(max(limit, 6000))
+        Switch.receive_frame = counting
+        error = None
+        try:
+            hs[0].ping("192.168.7.20", pings=1)
+        except BaseException as e:  # noqa - RecursionError (or a wrapper of it): the handling did not end by itself
+            error = e
+        finally:
+            Switch.receive_frame = original
+            sys.setrecursionlimit(limit)
+        worst = max(((c - (t0 + 1), t0, c) for t0, c in seen.values()), default=(0, 0, 0))
+        chk.add_case({"s": "l2_ring", "parallel_links": n_links, "frames": len(seen), "most_receptions": worst[2]}, nontrivial=True)
+        if not seen:
+            raise tlc.TLCError("vacuous: no frame reached a switch in the layer-2 ring")
+        if error is not None or worst[0] > 0:
+            chk.violation({"module": "Forwarding", "clause": "BoundedHops", "topo": "two switches, parallel links",
+                           "how": "raised" if error is not None else "more receptions than ttl"},
+                          {"parallel_links": n_links, "exception": repr(error)[:300] if error is not None else None,
+                           "first_seen_ttl": worst[1], "receptions_of_one_frame": worst[2]})
+    chk.notes.append("layer-2 ring (two switches, parallel links): handling of a broadcast ends by ttl alone - BoundedHops checked "
+                     "on the real switches by counting receptions per Frame object")
+
+
 def main(tier: str, seed: int) -> int:
     chk = common.Check(PROP, "model_checking", tier, seed)
     rng = random.Random(seed)
@@ -737,6 +804,7 @@ def main(tier: str, seed: int) -> int:
         ftraces += run_shipped(rec, chk, "multi_lan_internet_network_example")
         ftraces += run_shipped(rec, chk, "data_manipulation", via_env=True)
 
+    run_l2_ring(chk)
     res = tlc.validate("ForwardingTrace", ftraces, chunk=1500, parallel=8, timeout=2400)
     forwarding_selftest(chk, ftraces, res)
     common.judge_traces(chk, "Forwarding", ftraces, res, fwd_sig, selftest="ForwardingTrace")
